@@ -8,7 +8,9 @@ package checks
 //	TestC12Lifecycle  histories of create / edit / expire / GC / get at virtual
 //	                  instants placed relative to the silences' own boundaries;
 //	TestC12Invalid    short histories salted with inputs that must be rejected
-//	                  (and must leave the store byte-identical).
+//	                  (and must leave the store byte-identical), and, with a
+//	                  size limit configured, with creates and edits whose stored
+//	                  size sweeps the limit byte by byte.
 //
 // The real code is driven through the HTTP handlers of api/v2 (and, where the
 // HTTP schema cannot express the input, through Silences.Set), plus
@@ -148,6 +150,10 @@ type c12Step struct {
 	Code  int // post/expire/get: HTTP status (0 for direct calls)
 	Err   string
 	RetID string // post: id returned
+	// post, accepted: size in bytes of the silence as the store holds it (queried back by id and encoded
+	// as a MeshSilence with the stored expiresAt, i.e. without the copy of the first matcher set that the
+	// snapshot/gossip encoding adds for older versions); 0 if it could not be queried.
+	RetSize int
 	Got   *c12Obs
 	GCN   int
 
@@ -476,6 +482,15 @@ func c12Run(sc c12Scenario) (tr c12Trace) {
 			if st.Recs, err = env.records(); err != nil {
 				st.Err += " records: " + err.Error()
 			}
+			if op.Kind == "post" && st.RetID != "" {
+				if got, _, err := env.sils.Query(context.Background(), silence.QIDs(st.RetID)); err == nil && len(got) == 1 {
+					for _, r := range st.Recs {
+						if r.ID == st.RetID {
+							st.RetSize = proto.Size(&silencepb.MeshSilence{Silence: got[0], ExpiresAt: timestamppb.New(r.ExpiresAt)})
+						}
+					}
+				}
+			}
 			sils, _, qerr := env.sils.Query(context.Background(), silence.QState(silence.SilenceStateActive), silence.QMatches(probe))
 			if qerr != nil {
 				st.ProbeErr = qerr.Error()
@@ -499,6 +514,70 @@ type c12Verdict struct {
 	transitions         int  // observed state changes of an id between two listings
 	rejected            int  // rejected inputs while the store was non-empty
 	acceptedAfterReject bool
+	sizeWindow          int // posts whose stored size is within c12SizeWindow bytes of the size limit
+}
+
+// c12SizeWindow: the near-limit ops aim the stored size at limit-c12SizeWindow .. limit+c12SizeWindow, byte by
+// byte (the id alone is 38 of those bytes, the timestamps of a record up to 12 each).
+const c12SizeWindow = 45
+
+func c12DeltaClass(d int) string {
+	switch {
+	case d < -38:
+		return "-45..-39"
+	case d < -2:
+		return "-38..-3"
+	case d <= 2:
+		return fmt.Sprintf("%+d", d)
+	case d <= 38:
+		return "+3..+38"
+	default:
+		return "+39..+45"
+	}
+}
+
+// c12StoredSize is the size in bytes of the record the store holds for `in` once a Set at `now` has been
+// accepted (and the outcome that Set has: created / updated / replaced), or -1 if the model rejects `in` for
+// a reason other than its size. The record is built from the model's view of the stored silence (start
+// raised to now, updated_at = now, expires_at = end + retention, a 36-character uuid as id) and encoded with
+// the protobuf library: the wire format is trusted, the code under test is not consulted.
+func c12StoredSize(m *ref.C12Silences, now time.Time, in ref.C12Silence) (int, string) {
+	c := m.Clone()
+	r := c.Set(now, in, false)
+	switch r.Outcome {
+	case ref.C12Created, ref.C12Updated, ref.C12Replaced:
+	default:
+		return -1, ""
+	}
+	p, ok := c.Get(r.ID)
+	if !ok {
+		return -1, ""
+	}
+	sil := &silencepb.Silence{
+		Id:        c12UnknownID, // any uuid: 36 characters
+		StartsAt:  timestamppb.New(p.StartsAt),
+		EndsAt:    timestamppb.New(p.EndsAt),
+		UpdatedAt: timestamppb.New(p.UpdatedAt),
+		Comment:   p.Comment,
+		CreatedBy: p.CreatedBy,
+	}
+	for _, set := range p.MatcherSets {
+		ms := &silencepb.MatcherSet{}
+		for _, x := range set {
+			ms.Matchers = append(ms.Matchers, &silencepb.Matcher{Type: c12PbType[x.Op], Name: x.Name, Pattern: x.Pattern()})
+		}
+		sil.MatcherSets = append(sil.MatcherSets, ms)
+	}
+	return proto.Size(&silencepb.MeshSilence{Silence: sil, ExpiresAt: timestamppb.New(p.ExpiresAt)}), r.Outcome
+}
+
+// c12Oversize: does the stored form of `in` exceed the configured size limit?
+func c12Oversize(sc *c12Scenario, m *ref.C12Silences, now time.Time, in ref.C12Silence) bool {
+	if sc.MaxSizeBytes <= 0 {
+		return false
+	}
+	n, _ := c12StoredSize(m, now, in)
+	return n > sc.MaxSizeBytes
 }
 
 func c12SameRecs(a, b []c12Rec) bool {
@@ -643,7 +722,44 @@ func c12Judge(sc c12Scenario, tr c12Trace) (v c12Verdict) {
 				break
 			}
 			in := op.Sil.toRef(modelID)
-			oversize := sc.MaxSizeBytes > 0 && op.Sil.CommentPad > 0
+			// The size of a silence is the encoded size of the silence as the store holds it (with id
+			// and expiresAt). For an accepted input it is measured on what the store returns for the
+			// id; for a rejected one it is the size the stored silence would have had (built from the
+			// model's view of it).
+			oversize := false
+			if sc.MaxSizeBytes > 0 {
+				predicted, would := c12StoredSize(m, now, in)
+				oversize = predicted > sc.MaxSizeBytes
+				size := predicted
+				if !rejected && st.RetSize > 0 {
+					size = st.RetSize
+					if predicted >= 0 && size != predicted {
+						class("size-prediction-off")
+					}
+					if oversize = size > sc.MaxSizeBytes; oversize {
+						fail("oversize-stored", "the code accepted the silence (id %s) and stores it with %d bytes, the limit is %d", st.RetID, size, sc.MaxSizeBytes)
+					}
+					for _, r := range st.Recs {
+						if r.ID == st.RetID && !oversize && len(r.Raw) > sc.MaxSizeBytes {
+							// not judged: the snapshot/gossip record repeats the first matcher set for older versions
+							class("wire-record-over-limit")
+						}
+					}
+				}
+				if d := size - sc.MaxSizeBytes; size >= 0 && d >= -c12SizeWindow && d <= c12SizeWindow {
+					v.sizeWindow++
+					outcome := "rejected"
+					if !rejected {
+						outcome = "accepted"
+					}
+					if would == "" {
+						would = "invalid-otherwise"
+					}
+					class("size-window")
+					class("size-window:" + would + ":" + outcome)
+					class("size-delta:" + c12DeltaClass(d))
+				}
+			}
 			var prevState string
 			if p, ok := m.Get(modelID); ok {
 				prevState = ref.C12StateAt(p, now)
@@ -1245,7 +1361,8 @@ func (g *c12Gen) apply(op c12Op) {
 	switch op.Kind {
 	case "post":
 		if op.Omit == "" {
-			g.m.Set(now, op.Sil.toRef(id), g.sc.MaxSizeBytes > 0 && op.Sil.CommentPad > 0)
+			in := op.Sil.toRef(id)
+			g.m.Set(now, in, c12Oversize(g.sc, g.m, now, in))
 		}
 	case "expire":
 		g.m.Expire(now, id)
@@ -1434,10 +1551,143 @@ func (g *c12Gen) invalidOp(base *c12Sil, refID int) c12Op {
 	return op
 }
 
+// ---- inputs whose stored size sweeps the size limit byte by byte
+
+// padTo sets s.CommentPad so that the record stored for s (submitted under model id m<refID> now) has
+// `target` bytes, as nearly as the encoding allows; false if the model rejects s for another reason.
+func (g *c12Gen) padTo(s *c12Sil, refID, target int) bool {
+	id := ""
+	if refID > 0 {
+		id = fmt.Sprintf("m%d", refID)
+	}
+	now := g.now()
+	pad := 0
+	for i := 0; i < 6; i++ {
+		s.CommentPad = pad
+		n, _ := c12StoredSize(g.m, now, s.toRef(id))
+		if n < 0 {
+			s.CommentPad = 0
+			return false
+		}
+		if n == target {
+			return true
+		}
+		if pad += target - n; pad < 0 {
+			pad = 0
+		}
+	}
+	s.CommentPad = pad
+	return true
+}
+
+// c12SplitPad writes a comment as base + a run of 'x' (how c12Sil carries long comments).
+func c12SplitPad(c string) (string, int) {
+	base := strings.TrimRight(c, "x")
+	return base, len(c) - len(base)
+}
+
+// nearLimitOp: a create, an in-place edit or a replacing edit whose stored size lies within c12SizeWindow
+// bytes of the size limit, or an in-place edit that keeps the size of such a silence (another comment of
+// the same length, a later end).
+func (g *c12Gen) nearLimitOp() c12Op {
+	t := g.t
+	op := c12Op{AtSec: g.sec, Kind: "post"}
+	now := g.now()
+	nowSec := c12ToMs(now) / 1000
+	limit := g.sc.MaxSizeBytes
+	// the byte offset from the limit: two draws, because rapid favours the ends of one integer range
+	delta := rapid.IntRange(0, 12).Draw(t, "deltaHi")*7 + rapid.IntRange(0, 6).Draw(t, "deltaLo") - c12SizeWindow
+	if rapid.IntRange(0, 3).Draw(t, "deltaEdge") == 0 {
+		delta = rapid.IntRange(-2, 2).Draw(t, "deltaAtLimit")
+	}
+	// live silences, the ones that are near the limit themselves several times
+	var pool []string
+	for _, id := range g.m.IDs() {
+		p, _ := g.m.Get(id)
+		if ref.C12StateAt(p, now) == ref.C12Expired {
+			continue
+		}
+		w := 1
+		if len(p.Comment) > limit/2 {
+			w = 6
+		}
+		for ; w > 0; w-- {
+			pool = append(pool, id)
+		}
+	}
+	kind := rapid.SampledFrom([]string{"create", "create", "create", "same-size", "same-size", "end-extended", "in-place", "in-place", "replace", "replace"}).Draw(t, "nearKind")
+	if len(pool) == 0 {
+		kind = "create"
+	}
+	op.Intent = fmt.Sprintf("near-limit:%s%+d", kind, delta)
+	if kind == "create" {
+		s := g.genCreate()
+		if !g.acceptable(s, 0) {
+			startSec := nowSec
+			if !s.NoStart {
+				startSec = s.StartMs / 1000
+			}
+			s.EndMs = (max(startSec, nowSec+1) + rapid.SampledFrom(c12Durations).Draw(t, "nearDur")) * 1000
+		}
+		g.padTo(s, 0, limit+delta)
+		if rapid.IntRange(0, 3).Draw(t, "nearViaSet") == 0 && g.acceptable(s, 0) {
+			op.Via = "set"
+		}
+		op.Sil = s
+		return op
+	}
+	p, _ := g.m.Get(rapid.SampledFrom(pool).Draw(t, "nearOf"))
+	op.Ref = c12Num(p.ID)
+	base, pad := c12SplitPad(p.Comment)
+	s := &c12Sil{Sets: p.MatcherSets, Comment: base, CommentPad: pad, CreatedBy: p.CreatedBy, StartMs: c12ToMs(p.StartsAt), EndMs: c12ToMs(p.EndsAt)}
+	later := func() {
+		s.EndMs = (c12ToMs(p.EndsAt)/1000 + 1 + rapid.SampledFrom(c12Durations).Draw(t, "nearLater")) * 1000
+	}
+	switch kind {
+	case "same-size":
+		// another comment of exactly the same length
+		for _, c := range []string{"c0", "c1"} {
+			if len(p.Comment) >= 2 && !strings.HasPrefix(p.Comment, c) {
+				s.Comment, s.CommentPad = c, len(p.Comment)-2
+				break
+			}
+		}
+		if rapid.Bool().Draw(t, "sameCreator") {
+			for _, c := range []string{"u0", "u1"} {
+				if len(p.CreatedBy) == 2 && p.CreatedBy != c {
+					s.CreatedBy = c
+					break
+				}
+			}
+		}
+	case "end-extended":
+		later()
+	case "in-place":
+		if rapid.Bool().Draw(t, "nearAlsoEnd") {
+			later()
+		}
+		s.Comment = rapid.SampledFrom(c12Comments).Draw(t, "comment")
+		g.padTo(s, op.Ref, limit+delta)
+	case "replace":
+		if sets, what := c12MutateOneMatcher(t, p.MatcherSets); what != "" {
+			s.Sets = sets
+		} else {
+			s.Sets = [][]ref.Matcher{c12GenValidSet(t)}
+		}
+		s.Comment = rapid.SampledFrom(c12Comments).Draw(t, "comment")
+		g.padTo(s, op.Ref, limit+delta)
+	}
+	if rapid.IntRange(0, 3).Draw(t, "nearViaSet") == 0 && g.acceptable(s, op.Ref) {
+		op.Via = "set"
+	}
+	op.Sil = s
+	return op
+}
+
 func genC12Invalid(t *rapid.T) c12Scenario {
 	g := c12GenBase(t)
 	if rapid.Bool().Draw(t, "sizeLimit") {
-		g.sc.MaxSizeBytes = 1024
+		g.sc.MaxSizeBytes = rapid.SampledFrom([]int{1024, 1024, 700, 1500}).Draw(t, "sizeLimitBytes")
 	}
 	if rapid.IntRange(0, 2).Draw(t, "countLimit") == 0 {
 		g.sc.MaxSilences = rapid.IntRange(1, 4).Draw(t, "maxSilences")
@@ -1449,6 +1699,10 @@ func genC12Invalid(t *rapid.T) c12Scenario {
 	}
 	for i := 0; i < n; i++ {
 		g.advance()
+		if g.sc.MaxSizeBytes > 0 && rapid.IntRange(0, 3).Draw(t, "nearLimit") == 0 {
+			g.apply(g.nearLimitOp())
+			continue
+		}
 		k := rapid.IntRange(0, 9).Draw(t, "invKind")
 		ids := g.m.IDs()
 		switch {
@@ -1512,6 +1766,7 @@ func TestC12Invalid(t *testing.T) {
 		Property: "C12",
 		Name:     "C12Invalid",
 		Rule: "4..14 (thorough 30) ops mixing valid lifecycle ops with inputs the statement rejects — as creates and as edits of existing silences, through POST /api/v2/silences and (for shapes the HTTP schema cannot carry: several matcher sets, invalid UTF-8, zero end) Silences.Set: matcher sets accepting only the empty string, bad regex, invalid label name for the parser mode, no/empty matcher set, omitted required member, end <= start, end in the past, unknown id, oversize, over the count limit. Every rejection must be 4xx/error and leave MarshalBinary identical as a set of records; a final plainly valid create must succeed (unless the count limit is reached). " +
+			"With a per-silence size limit configured (half of the cases; 700, 1024 or 1500 bytes) a quarter of the ops are near-limit ones: creates, in-place edits and replacing edits whose comment is padded so that the stored size lands, byte by byte, at limit-45..limit+45, and in-place edits that keep the size of such a silence (another comment of the same length, another creator, a later end). A silence is oversize iff its encoded size as the store holds it (MeshSilence with the 36-character id and expiresAt, not counting the copy of the first matcher set that the snapshot/gossip encoding adds for older versions) exceeds the limit: measured on the silence queried back by id when the code accepted (kind oversize-stored), computed from the model's stored form when it rejected; so a near-limit silence that fits must be accepted, keep its id on such edits, and one that does not fit must leave the store untouched. Classes size-window* / size-delta:* count the cases with a post within 45 bytes of the limit. " +
 			"Non-trivial: at least one input was rejected while the store was non-empty and a valid input was accepted after a rejection." + c12Assume,
 		Gen: genC12Invalid,
 		Exec: func(sc c12Scenario) pbt.Result {
